@@ -22,6 +22,23 @@ Theorem C01_dedup_rows_distinct :
 Proof. exact dedup_nodup. Qed.
 Print Assumptions C01_dedup_rows_distinct.
 
+(* the table built from a term list is a function of the list as a MULTISET of values: the order of the terms is
+   irrelevant, and n copies of a term (equal values -- object identity cannot matter) contribute n times its factor *)
+Theorem C01_table_multiset :
+  forall (R : CRing) (iszero : R -> bool), (forall x, iszero x = true -> x = r0 R) ->
+  forall (t1 t2 : table R) (s : key), Permutation.Permutation t1 t2 ->
+  coeffT R (dedup R iszero t1) s = coeffT R (dedup R iszero t2) s.
+Proof. exact table_multiset. Qed.
+Print Assumptions C01_table_multiset.
+
+Theorem C01_dedup_multiplicity :
+  forall (R : CRing) (iszero : R -> bool), (forall x, iszero x = true -> x = r0 R) ->
+  forall (k : key) (f : R) (n : nat) (t : table R) (s : key),
+  coeffT R (dedup R iszero (repeat (k, f) n ++ t)) s
+  = radd R (nmul R n (if keqb k s then f else r0 R)) (coeffT R t s).
+Proof. exact dedup_multiplicity. Qed.
+Print Assumptions C01_dedup_multiplicity.
+
 (* ---- _decompose_graph: for EVERY vertex cover (rsel, csel) of the incidence relation of the table
         and EVERY order of the selected rows / columns, the pair (bond-so-far D, remaining table)
         denotes the same operator before and after the site is split off *)
@@ -385,4 +402,9 @@ Example C01_ex_cert :
      [([0; 2], [0; 0]); ([1; 2], [1; 0])];
      [([0; 0], [0])]]
     (extend ZRing (terms_to_table ZRing z_zero ex1_terms 0%Z [0; 0; 0])) = true.
+Proof. vm_compute. reflexivity. Qed.
+
+(* 10. three copies of one term next to another one: factor 3 * 2 = 6 *)
+Example C01_ex_multiplicity :
+  dedup ZRing z_zero (repeat ([1; 2], 2%Z) 3 ++ [([3; 0], 5%Z)]) = [([1; 2], 6%Z); ([3; 0], 5%Z)].
 Proof. vm_compute. reflexivity. Qed.
